@@ -187,7 +187,11 @@ fn grid<T: Tier + Dom<M = Sh>, V: Inner<T, N>, const N: usize>(rep: &mut Report,
     let dims: Vec<usize> = vec![side; 2 * N];
     // the last scale makes every vector shorter than the type's machine epsilon (but far from underflow)
     let tiny = if T::NAME == "F" { 2f64.powi(-30) } else { 2f64.powi(-70) };
-    let scales: Vec<f64> = if rep.quick() { vec![1.0, tiny] } else { vec![1.0, 1e-3, 1e3, tiny] };
+    // ... and a ladder down to / up to lengths whose fourth powers are still normal numbers (Vector3::angle squares a
+    // cross product): a cut-off "below this length a vector counts as zero" placed anywhere on it shows
+    let (deep, huge) = if T::NAME == "F" { (2f64.powi(-30), 2f64.powi(28)) } else { (2f64.powi(-250), 2f64.powi(240)) };
+    let scales: Vec<f64> = if rep.quick() { vec![1.0, tiny, deep, huge] } else { vec![1.0, 1e-3, 1e3, tiny, 2f64.powi(-20), if T::NAME == "F" { 2f64.powi(-25) } else { 2f64.powi(-45) }, deep, huge, huge.sqrt()] };
+    let scales: Vec<f64> = scales.iter().enumerate().filter(|(i, x)| scales[..*i].iter().all(|y| y != *x)).map(|(_, x)| *x).collect();
     let n1 = alphabet::product_len(&dims);
     rep.cases(
         &format!("grid/{}", V::NAME),
@@ -383,7 +387,45 @@ fn close_sys<T: Tier + Dom<M = Sh>, const N: usize>(
         },
     );
 }
+/// 2-D signed angles next to 0 and next to +-pi (non-dyadic components): the atan2 form resolves them, an acos form
+/// with a sign attached does not
+fn small_angle2<T: Tier + Dom<M = Sh>>(rep: &mut Report) {
+    let steps: Vec<f64> = if T::NAME == "F" { vec![2f64.powi(-6), 2f64.powi(-10), 2f64.powi(-14)] } else { vec![2f64.powi(-8), 2f64.powi(-20), 2f64.powi(-32)] };
+    let ks = [1.0f64, -1.0, 2.5, -0.3];
+    let nb = 3;
+    rep.cases(
+        "small-angle/Vector2",
+        T::NAME,
+        &format!("3 generic u x steps {:?} x {:?}: v = +-u + step * k * perp(u) (rounded): signed angle next to 0 and next to +-pi", steps, ks),
+        nb * steps.len() * ks.len() * 2,
+        Guard::states(6).distinct(6),
+        |i, ctx| {
+            let d = alphabet::decode(i, &[nb, steps.len(), ks.len(), 2]);
+            let base = alphabet::generic(2, d[0]);
+            let c = |x: f64| num_traits::cast::<f64, T>(x).unwrap();
+            let u: [T; 2] = [c(base[0].0 as f64 / base[0].1 as f64 / 3.0), c(base[1].0 as f64 / base[1].1 as f64 / 7.0)];
+            let sg = if d[3] == 0 { 1.0 } else { -1.0 };
+            let (st, k) = (steps[d[1]], ks[d[2]]);
+            let v: [T; 2] = [c(sg * u[0].f() - st * k * u[1].f()), c(sg * u[1].f() + st * k * u[0].f())];
+            ctx.describe(|| format!("Vector2<{}> u={:?} v={:?}", T::NAME, u, v));
+            ctx.out(&d);
+            let (mu, mv): ([Sh; 2], [Sh; 2]) = (lift_v(u), lift_v(v));
+            let m = Sh::atan2(mu[0] * mv[1] - mu[1] * mv[0], model::vdot(mu, mv));
+            for (a, want) in [(mk_v2(u).angle(mk_v2(v)).0.f(), m.v), (mk_v2(v).angle(mk_v2(u)).0.f(), -m.v)] {
+                ctx.t();
+                let tol = K_TOL * T::U * (m.e + m.v.abs());
+                let diff = (a - want).abs();
+                let diff = diff.min((diff - 2.0 * PI).abs());
+                if !(diff <= tol) {
+                    ctx.fail(&key("angle/Vector2/signed-ccw/nearly-parallel"), || format!("angle = {a:e}, counter-clockwise angle is {want:e} (tolerance {tol:e})"));
+                }
+            }
+        },
+    );
+}
+
 fn close<T: Tier + Dom<M = Sh>>(rep: &mut Report) {
+    small_angle2::<T>(rep);
     close_sys::<T, 1>(rep, "Vector1", |u, v| mk_v1(u).distance2(mk_v1(v)), |u, v| mk_v1(u).distance(mk_v1(v)));
     close_sys::<T, 2>(rep, "Vector2", |u, v| mk_v2(u).distance2(mk_v2(v)), |u, v| mk_v2(u).distance(mk_v2(v)));
     close_sys::<T, 3>(rep, "Vector3", |u, v| mk_v3(u).distance2(mk_v3(v)), |u, v| mk_v3(u).distance(mk_v3(v)));
